@@ -238,6 +238,17 @@ func c20Case(r *rand.Rand) Case {
 	if dom.VerifDump(d) != after {
 		fail = append(fail, "writing into the value returned by AsMap() modified the representation of the document")
 	}
+	// the result of a Merge is a new document: finishing it — overwriting its top-level scalars (nulls
+	// included) through the ordinary AddValue — is not a write to the operand
+	if pn := guard(func() {
+		res := dom.Builder().Container().Merge(d)
+		overwriteScalars(res, 0)
+	}); pn != "" {
+		fail = append(fail, "panic while overwriting scalars of a Merge result: "+pn)
+	}
+	if dom.VerifDump(d) != after {
+		fail = append(fail, "overwriting scalars in the result of {}.Merge(d) modified the representation of d")
+	}
 	// a clone is a private copy: editing it (at any depth, lists inside lists included) is not a write to d
 	if pn := guard(func() {
 		cl := d.Clone()
@@ -256,6 +267,23 @@ func c20Case(r *rand.Rand) Case {
 }
 
 // write into every map and list of a plain value
+// overwrite every top-level scalar child of a document under construction with a fresh leaf
+func overwriteScalars(cb dom.ContainerBuilder, depth int) {
+	for k, ch := range cb.Children() {
+		if strings.ContainsAny(k, ".[]") || k == "" {
+			continue
+		}
+		switch x := ch.(type) {
+		case dom.ContainerBuilder:
+			if depth < 0 { // (nested containers of a merge result are shared with its operands on the unchanged tree: top level only)
+				overwriteScalars(x, depth+1)
+			}
+		case dom.Leaf:
+			cb.AddValue(k, dom.LeafNode("overwritten-by-the-reader"))
+		}
+	}
+}
+
 func scribble(v any) {
 	switch x := v.(type) {
 	case map[string]any:
@@ -334,6 +362,22 @@ func c20Overlay(r *rand.Rand) Case {
 					for j := 0; j < 6; j++ {
 						randomEdit(r, lb)
 					}
+				}
+			}
+		}},
+		{"own-the-merged-view", func() {
+			// the merged view is the reader's own structure (also for an overlay of ONE layer): adding, removing
+			// and overwriting at its top level is not a write to the overlay
+			for _, mv := range []dom.Container{ov.Merged(), ov.Merged(dom.ListsMergeAppend())} {
+				cb, ok := mv.(dom.ContainerBuilder)
+				if !ok {
+					continue
+				}
+				overwriteScalars(cb, 0)
+				cb.AddValue("own-key", dom.LeafNode(1))
+				for k := range cb.Children() {
+					cb.Remove(k)
+					break
 				}
 			}
 		}},
@@ -431,7 +475,7 @@ func c20Concurrent(seed int64, tier string) ([]string, map[string]any) {
 func init() {
 	register(&Prop{
 		ID:   "C20",
-		Rule: "documents with empty containers and empty lists at any depth along 7 construction routes (builder, FromMap, loaded from YAML, merged, cloned, sealed, empty sealed) x one read-only call (Child, Children, Lookup, Flatten, Search, AsMap, Equals, SameAs, Clone; then Serialize and list accessors, then writes into the plain value AsMap() returned, then 8 random edits of a Clone()): the generic representation dump (hook dom.VerifDump: every field, nil-ness/len/cap of maps and slices) must be identical before and after, and the returned value equal to the content-only model; overlay-read: Lookup (incl. unknown layer), LookupAny, Search, Merged (both strategies), Layers, LayerNames, Walk, Serialize, and random edits of Layers() snapshots and their clones leave the overlay's dump unchanged (layers derived from each other, so they share structure at every depth, plus a fixed three-level overlap with lists in lists). Extra: 16 goroutines x random read sequences on one shared document + overlay views, observations equal to single-threaded ones; the same harness is built with -race and must produce no race report. Non-trivial: document has an unallocated (nil) map or slice. Distinct by Gallina term. The slices returned by Items()/AsSlice() of every list and of its sealed view are overwritten and appended to by two readers.",
+		Rule: "documents with empty containers and empty lists at any depth along 7 construction routes (builder, FromMap, loaded from YAML, merged, cloned, sealed, empty sealed) x one read-only call (Child, Children, Lookup, Flatten, Search, AsMap, Equals, SameAs, Clone; then Serialize and list accessors, then writes into the plain value AsMap() returned, then 8 random edits of a Clone()): the generic representation dump (hook dom.VerifDump: every field, nil-ness/len/cap of maps and slices) must be identical before and after, and the returned value equal to the content-only model; overlay-read: Lookup (incl. unknown layer), LookupAny, Search, Merged (both strategies), Layers, LayerNames, Walk, Serialize, and random edits of Layers() snapshots and their clones leave the overlay's dump unchanged (layers derived from each other, so they share structure at every depth, plus a fixed three-level overlap with lists in lists). Extra: 16 goroutines x random read sequences on one shared document + overlay views, observations equal to single-threaded ones; the same harness is built with -race and must produce no race report. Non-trivial: document has an unallocated (nil) map or slice. Distinct by Gallina term. The slices returned by Items()/AsSlice() of every list and of its sealed view are overwritten and appended to by two readers. The merged view of an overlay (also of one layer) and the result of {}.Merge(d) are finished by their reader at the top level (add, remove, overwrite scalars).",
 		Gen: func(r *rand.Rand, tier string, idx int) Case {
 			if idx%5 == 4 {
 				return c20Overlay(r)
